@@ -191,7 +191,7 @@ def run_property(modname: str, tier: str, seed: int, update_ledger: bool = False
         conc_results = conc(tier, seed, refuted, undecided, known) or []
     # PYVC_OUT: where replays and evidence go (seed/mutant harnesses point it at a scratch directory so that a run
     # against a deliberately broken tree never overwrites the evidence of the real tree)
-    out_root = Path(os.environ.get("PYVC_OUT") or ROOT)
+    out_root = Path(os.environ.get("PYVC_OUT") or (ROOT / ".work" / "only" if only else ROOT))  # a partial (--only) run never overwrites the evidence
     rdir = out_root / "replays" / prop
     if refuted or conc_results:
         rdir.mkdir(parents=True, exist_ok=True)
